@@ -68,6 +68,45 @@ fn cmd_replay(path: &str) -> ExitCode {
     }
 }
 
+/// Debug aid: prints the ops and effect trace of a replay file's history.
+fn cmd_trace(path: &str) -> ExitCode {
+    world::install_panic_hook_once();
+    let text = std::fs::read_to_string(path).expect("read");
+    let v: serde_json::Value = serde_json::from_str(&text).expect("json");
+    let found: Found = serde_json::from_value(v["found"].clone()).expect("found");
+    let d = fault::eval_hist(&found.case);
+    let fs = d.world.fs.borrow();
+    for (i, s) in d.steps.iter().enumerate() {
+        println!("op {i}: {} -> {:?}   [policy {:?}]", s.op.short(), s.outcome, s.policy);
+        for (k, e) in fs.trace[s.eff_start..s.eff_end].iter().enumerate() {
+            if !matches!(e.eff, simfs::Eff::Read { .. } | simfs::Eff::Stat { .. }) {
+                println!("      {k:3} (#{}) {}", s.eff_start + k, e.eff.short());
+            }
+        }
+    }
+    println!("fault: {:?}", found.fault);
+    if let fault::Fault::Crash { at, .. } = &found.fault {
+        if let Some(idx) = crash::global_index(&d, at) {
+            let image = match at.powerloss {
+                Some(seed) => crash::powerloss_image(&fs.trace, &fs.bases[0].1, idx, at.byte, seed),
+                None => crash::os_image_at(&d, idx, at.byte),
+            };
+            for (name, node) in &image {
+                println!("  image: {name} {}", match node { simfs::Node::File(d) => format!("{} bytes", d.len()), n => format!("{n:?}") });
+            }
+            let p = walparse::parse(&image);
+            for e in &p.entries {
+                println!("  entry: {:?} frames {}..={} bytes {}", match &e.kind { walparse::EntryKind::Append { queue, position, recs } => format!("Append {queue} @{position} x{}", recs.len()), k => format!("{k:?}") }, e.first_frame, e.last_frame, e.bytes);
+            }
+            println!("  parser end {:?} problems {:?}", p.end, p.problems);
+        }
+    }
+    for f in &d.failures {
+        println!("phase-A failure: {:?}", f);
+    }
+    ExitCode::SUCCESS
+}
+
 fn cmd_check(prop: &str, tier: Tier) -> ExitCode {
     let Some(spec) = props::spec(prop) else {
         eprintln!("harness error: unknown property {prop}");
@@ -88,6 +127,15 @@ fn cmd_check(prop: &str, tier: Tier) -> ExitCode {
     let m = check::search(prop, seed, n_runs.max(1), cap_s, threads, |s, i| run(&prop_owned, s, i, tier));
     println!("  {} runs, {} evaluations, {} distinct non-trivial, {:.1}s, failures found: {}", m.runs, m.evaluations, m.signatures.len(), m.wall_s, m.found.len());
 
+    {
+        let mut by_fp: std::collections::BTreeMap<String, usize> = Default::default();
+        for (_, f) in &m.found {
+            *by_fp.entry(f.fingerprint()).or_insert(0) += 1;
+        }
+        for (fp, n) in &by_fp {
+            println!("  failure class {fp}: {n} occurrence(s)");
+        }
+    }
     let known = check::load_known_findings(&format!("{}/known_findings.json", root()));
     let mut known_hit: BTreeSet<String> = BTreeSet::new();
     let mut seen: BTreeSet<String> = BTreeSet::new();
@@ -105,7 +153,7 @@ fn cmd_check(prop: &str, tier: Tier) -> ExitCode {
             }
             continue;
         }
-        if !seen.insert(fp.clone()) || violations >= 3 {
+        if !seen.insert(fp.clone()) || violations >= 6 {
             continue;
         }
         // confirm through the replay path, minimise, write, replay in a fresh process
@@ -116,7 +164,7 @@ fn cmd_check(prop: &str, tier: Tier) -> ExitCode {
             continue;
         }
         let min = minimise::minimise(found, 2000);
-        let path = format!("{}/replays/{}-{}-{}.json", root(), prop, seed, run_index);
+        let path = format!("{}/replays/{}-{}-{}-{}.json", root(), prop, seed, run_index, found.clause);
         let doc = serde_json::json!({
             "property": min.prop, "clause": min.clause, "detail": min.detail, "seed": seed, "run_index": run_index,
             "ops_before_minimisation": found.case.ops.len(), "ops": min.case.ops.iter().map(|o| o.short()).collect::<Vec<_>>(),
@@ -199,6 +247,7 @@ fn main() -> ExitCode {
             }
             cmd_check(&prop, tier)
         }
+        Some("trace") => cmd_trace(args.get(2).map(|s| s.as_str()).unwrap_or("")),
         Some("replay") => cmd_replay(args.get(2).map(|s| s.as_str()).unwrap_or("")),
         Some("digests") => {
             let prop = args.get(2).cloned().unwrap_or_default();
